@@ -442,6 +442,14 @@ func Bin(op Op, a, b *Term) *Term {
 		if a.Op == OConst && a.K == 0 || b.Op == OConst && b.K == 0 {
 			return C(w, 0)
 		}
+		// (x >> c) & 1  ->  zext(extract(x,c,c))
+		if b.Op == OConst && b.K == 1 && a.Op == OLShr && a.A[1].Op == OConst && a.A[1].K < uint64(w) {
+			c := uint8(a.A[1].K)
+			return ZExt(Extract(a.A[0], c, c), w)
+		}
+		if b.Op == OConst && b.K == 1 && w > 1 {
+			return ZExt(Extract(a, 0, 0), w)
+		}
 		if a.Op == OConst && a.K == mask(w) {
 			return b
 		}
@@ -780,16 +788,11 @@ func PopCount64(x *Term) *Term {
 	if x.Op == OConst {
 		return C(64, uint64(bits.OnesCount64(x.K)))
 	}
-	// SWAR formula (same as math/bits) keeps terms small.
-	const m0 = 0x5555555555555555
-	const m1 = 0x3333333333333333
-	const m2 = 0x0f0f0f0f0f0f0f0f
-	c := func(v uint64) *Term { return C(64, v) }
-	x = Bin(OAdd, Bin(OBAnd, Bin(OLShr, x, c(1)), c(m0)), Bin(OBAnd, x, c(m0)))
-	x = Bin(OAdd, Bin(OBAnd, Bin(OLShr, x, c(2)), c(m1)), Bin(OBAnd, x, c(m1)))
-	x = Bin(OBAnd, Bin(OAdd, Bin(OLShr, x, c(4)), x), c(m2))
-	x = Bin(OAdd, x, Bin(OLShr, x, c(8)))
-	x = Bin(OAdd, x, Bin(OLShr, x, c(16)))
-	x = Bin(OAdd, x, Bin(OLShr, x, c(32)))
-	return Bin(OBAnd, x, c(127))
+	// naive definition: sum of the 64 bits
+	r := C(64, 0)
+	for i := 0; i < 64; i++ {
+		r = Bin(OAdd, r, BoolToBV(Eq(Extract(x, uint8(i), uint8(i)), C(1, 1)), 64))
+	}
+	return r
 }
+
